@@ -26,6 +26,16 @@ def simple_graph(n, mask, as_nx=False):
     if as_nx == "duck":
         from . import ducks
         return ducks.computed_graph(n, E), E
+    if as_nx == "nx-mixed":
+        # labels that cannot be sorted (numbers, strings and tuples mixed): the documented conversion then numbers the
+        # vertices in listing order, so vertex v is the v-th node added -- whatever order the sortable ones are in
+        import networkx
+        G = networkx.Graph()
+        pool = [7, 3, "a", 5, (1, 2), 1, "b", 9, 2.5, "c"]
+        lab = lambda v: pool[v - 1] if v <= len(pool) else "v%d" % v
+        G.add_nodes_from(lab(v) for v in range(1, n + 1))
+        G.add_edges_from((lab(v), lab(u)) for u, v in reversed(E))
+        return G, E
     if as_nx:
         # a networkx graph whose labels are not 1..n and whose insertion order is not the label order:
         # the documented conversion numbers the vertices by *sorted* label, so vertex v is the v-th label
@@ -86,12 +96,14 @@ def bipartite_graph(L, R, mask, as_nx=False):
 
 def rep_tag(as_nx):
     """How a graph argument was given, for labels: '', ',nx' (networkx object) or ',user class' (vmon/ducks.py)."""
-    return ",user class" if as_nx == "duck" else ",nx" if as_nx else ""
+    return ",user class" if as_nx == "duck" else ",nx with unsortable labels" if as_nx == "nx-mixed" else ",nx" if as_nx else ""
 
 
 def count_rep(ctx, as_nx):
     if as_nx == "duck":
         ctx.count("user_class_inputs")
+    elif as_nx == "nx-mixed":
+        ctx.count("networkx_inputs_with_unsortable_labels")
     elif as_nx:
         ctx.count("networkx_inputs")
 
